@@ -10,6 +10,10 @@ import (
 
 	c4eapp "github.com/chain4energy/c4e-chain/app"
 	appparams "github.com/chain4energy/c4e-chain/app/params"
+	distkeeper "github.com/chain4energy/c4e-chain/x/cfedistributor/keeper"
+	disttypes "github.com/chain4energy/c4e-chain/x/cfedistributor/types"
+	minterkeeper "github.com/chain4energy/c4e-chain/x/cfeminter/keeper"
+	mintertypes "github.com/chain4energy/c4e-chain/x/cfeminter/types"
 	sigkeeper "github.com/chain4energy/c4e-chain/x/cfesignature/keeper"
 	sigtypes "github.com/chain4energy/c4e-chain/x/cfesignature/types"
 	"github.com/cosmos/cosmos-sdk/simapp"
@@ -213,6 +217,39 @@ func (c *Chain) Direct(msg sdk.Msg) (res *sdk.Result, err error, pi *PanicInfo) 
 	return
 }
 
+// DirectAtomic runs several messages through the message-service router on ONE cache-wrapped context and writes it
+// only if every message succeeded - what x/gov does with the messages of a passed proposal and what DeliverTx does
+// with the messages of a transaction. The first failure discards everything the earlier messages did.
+func (c *Chain) DirectAtomic(msgs []sdk.Msg) (events []abci.Event, err error, pi *PanicInfo) {
+	ctx := c.Ctx()
+	cctx, write := ctx.CacheContext()
+	pi = catch("DirectAtomic", func() {
+		for i, msg := range msgs {
+			h := c.App.MsgServiceRouter().Handler(msg)
+			if h == nil {
+				err = fmt.Errorf("no handler for %s", sdk.MsgTypeURL(msg))
+				return
+			}
+			var res *sdk.Result
+			res, err = h(cctx, msg)
+			if err != nil {
+				err = fmt.Errorf("message %d: %w", i, err)
+				return
+			}
+			if res != nil {
+				events = append(events, res.Events...)
+			}
+		}
+	})
+	if pi == nil && err == nil {
+		write()
+	} else {
+		events = nil
+	}
+	c.Txs++
+	return
+}
+
 // WithCache runs f on a cache-wrapped context; writes when f returns true and does not panic.
 func (c *Chain) WithCache(where string, f func(ctx sdk.Context) bool) *PanicInfo {
 	ctx := c.Ctx()
@@ -296,6 +333,52 @@ func (c *Chain) DirectSig(msg sdk.Msg) (err error, pi *PanicInfo) {
 			_, err = srv.PublishReferencePayloadLink(goCtx, m)
 		default:
 			err = fmt.Errorf("not a cfesignature message: %T", msg)
+		}
+	})
+	if pi == nil && err == nil {
+		write()
+	}
+	c.Txs++
+	return
+}
+
+// DirectSrv hands a minter or distributor parameter-update message to the module's own message server, the way an
+// in-process caller (another module, a unit test, a future wiring) does: the message must pass ValidateBasic, which
+// is checked on a decoded copy, so the handler sees the payload exactly as the caller built it (the message router
+// and x/gov both run ValidateBasic on the very object they hand on, and cfeminter's ValidateBasic sorts its
+// minters in place).
+func (c *Chain) DirectSrv(msg sdk.Msg) (err error, pi *PanicInfo) {
+	if js, e := MsgToJSON(msg); e == nil {
+		if cp, e2 := MsgFromJSON(js); e2 == nil {
+			var verr error
+			if p := catch("DirectSrv:ValidateBasic", func() { verr = cp.ValidateBasic() }); p != nil {
+				return nil, p
+			}
+			if verr != nil {
+				c.Txs++
+				return verr, nil
+			}
+		}
+	}
+	ctx := c.Ctx()
+	cctx, write := ctx.CacheContext()
+	pi = catch("DirectSrv:"+sdk.MsgTypeURL(msg), func() {
+		goCtx := sdk.WrapSDKContext(cctx)
+		switch m := msg.(type) {
+		case *mintertypes.MsgUpdateMintersParams:
+			_, err = minterkeeper.NewMsgServerImpl(c.App.CfeminterKeeper).UpdateMintersParams(goCtx, m)
+		case *mintertypes.MsgUpdateParams:
+			_, err = minterkeeper.NewMsgServerImpl(c.App.CfeminterKeeper).UpdateParams(goCtx, m)
+		case *disttypes.MsgUpdateParams:
+			_, err = distkeeper.NewMsgServerImpl(c.App.CfedistributorKeeper).UpdateParams(goCtx, m)
+		case *disttypes.MsgUpdateSubDistributorParam:
+			_, err = distkeeper.NewMsgServerImpl(c.App.CfedistributorKeeper).UpdateSubDistributorParam(goCtx, m)
+		case *disttypes.MsgUpdateSubDistributorDestinationShareParam:
+			_, err = distkeeper.NewMsgServerImpl(c.App.CfedistributorKeeper).UpdateSubDistributorDestinationShareParam(goCtx, m)
+		case *disttypes.MsgUpdateSubDistributorBurnShareParam:
+			_, err = distkeeper.NewMsgServerImpl(c.App.CfedistributorKeeper).UpdateSubDistributorBurnShareParam(goCtx, m)
+		default:
+			err = fmt.Errorf("no message server route for %T", msg)
 		}
 	})
 	if pi == nil && err == nil {
